@@ -146,6 +146,7 @@ def run(prog, chk):
 
     chk.rule('R18.6', 'the per-shot logging switch decides nothing but the log')
     _log_switch_rule(prog, chk, R)
+    _presentation_switches(prog, chk, R)
     # ---- R18.5 -----------------------------------------------------------------------------
     for rn in (evname, 'bloch::runtime::RuntimeClass', 'bloch::runtime::Object', 'bloch::runtime::QasmSimulator'):
         rec = prog.facts.records.get(rn)
@@ -246,6 +247,72 @@ def _log_switch_rule(prog, chk, R):
                    'in %s a %s is conditional on the evaluator\'s per-shot logging switch: only the last shot of a run logs, so the other shots then differ from a fresh run' % (
                        f.short, bad), key='ev-log-switch:%s:%s' % (f.short, bad))
     chk.ob('R18.6', R.ev['name'], 'runtime_evaluator', True, '', key='ev-log-switch:%s' % ','.join(sorted(flags)), nontrivial=False)
+
+
+
+def _presentation_switches(prog, chk, R):
+    """R18.6 (second half) — besides the logging switch, the CLI sets per-shot *presentation* switches on each evaluator (echo on/off,
+    warn-at-exit on/off); they differ from shot to shot (only the last shot warns, echo is off in multi-shot mode).  A shot equals a
+    fresh run only if such a switch decides nothing but what is shown: in the evaluator, code that is conditional on one of them may
+    append to / print the output buffer and call const members — no other state change, no non-const member call."""
+    ev = R.ev
+    evname = ev['name']
+    cli = [f for f in prog.functions if f.body and f.file.endswith('cli/cli.cpp')]
+    setters = set()
+    for f in cli:
+        for c in SX.walk(f.body):
+            if c.get('k') == 'mcall' and (c.get('callee') or '').startswith(evname + '::') and SX.short(c['callee']).startswith('set'):
+                setters.add(c['callee'])
+    switches = {}
+    for s_ in setters:
+        for t in prog.by_name.get(s_, []):
+            if not t.body:
+                continue
+            for n in SX.walk(t.body):
+                w = SX.write_target(n)
+                if w and SX.is_this_member(SX.strip(w[0])) and (SX.strip(w[0]).get('t') == 'bool'):
+                    switches[SX.strip(w[0])['name']] = t.short
+    chk.count('per-shot presentation switches the CLI sets', len(switches), 2)
+    out_members = {f['name'] for f in ev['fields'] if f['type'] in ('std::vector<std::string>',) or 'ostream' in f['type'] or 'ostringstream' in f['type']}
+    nsite = 0
+    for f in [x for x in prog.functions if x.body and x.file.endswith('runtime_evaluator.cpp')]:
+        if not any(x.get('k') == 'member' and x.get('name') in switches and SX.is_this_member(x) for x in SX.walk(f.body, into_lambdas=False)):
+            continue
+        if f.short in switches.values():
+            continue
+        g = prog.cfg(f)
+        for node in g.nodes:
+            if node.kind not in ('assign', 'incdec', 'call') or not SX.is_node(node.e):
+                continue
+            gs = [ce for ce, pol, ed in g.guards(node) if any(y.get('k') == 'member' and y.get('name') in switches and SX.is_this_member(y) for y in SX.walk(ce))]
+            if not gs:
+                # (a disjunction has no single dominating edge: look at the enclosing `if`s themselves)
+                from ..kernels import enclosing_stmts
+                gs = [st['c'] for st in enclosing_stmts(f.body, node.e, into_lambdas=False) if st.get('k') == 'if' and SX.is_node(st.get('c')) and
+                      any(y.get('k') == 'member' and y.get('name') in switches and SX.is_this_member(y) for y in SX.walk(st['c']))]
+            if not gs:
+                continue
+            nsite += 1
+            bad = None
+            w = SX.write_target(node.e)
+            if w:
+                root = SX.strip(w[0])
+                while SX.is_node(root) and root.get('k') in ('index', 'member') and not SX.is_this_member(root):
+                    root = SX.strip(root.get('base'))
+                if SX.is_this_member(root) and root['name'] not in out_members:
+                    bad = 'write to ' + root['name']
+            for c in SX.walk(node.e, into_lambdas=False):
+                if c.get('k') == 'mcall' and not c.get('constm', True):
+                    o = SX.strip(c.get('obj'))
+                    if SX.is_node(o) and o.get('k') == 'this':
+                        bad = 'call of %s' % SX.short(c['callee'])
+                    elif SX.is_this_member(o) and o['name'] not in out_members:
+                        bad = 'call of %s.%s' % (o['name'], SX.short(c['callee']))
+            sw = sorted({y['name'] for ce in gs for y in SX.walk(ce) if y.get('k') == 'member' and y.get('name') in switches})
+            chk.ob('R18.6', f, node.ln or f.ln, bad is None,
+                   'in %s a %s is conditional on the per-shot presentation switch %s: the shots of one run differ in it, so they then differ from a fresh run in more than what is shown' % (
+                       f.short, bad, sw), key='presentation-switch:%s:%s' % (f.short, bad))
+    chk.count('evaluator actions conditional on a presentation switch', nsite, 2)
 
 
 def _fresh_locals(f):
